@@ -172,27 +172,8 @@ def accepted_value_variants(f, body_id, depth=0):
     return None
 
 
-def resolve_bin(body, op, depth=0):
-    """the binary rvalue an operand is a copy of (looking through `.0` of checked arithmetic)"""
-    if op[0] == "k" or depth > 8:
-        return None
-    l, proj = op[1]
-    d = mir.single_def(body, l)
-    if not d or d[0] != "assign":
-        return None
-    rv = d[4]
-    if rv[0] == "bin":
-        if rv[1].endswith("WithOverflow"):
-            ok = len(proj) == 1 and isinstance(proj[0], list) and proj[0][0] == "." and proj[0][1] == 0
-            return rv if ok else None
-        return rv if not proj else None
-    if rv[0] == "use" and not proj:
-        return resolve_bin(body, rv[1], depth + 1)
-    return None
-
-
-def is_add(rv):
-    return rv is not None and rv[1] in ("Add", "AddWithOverflow")
+resolve_bin = fl.resolve_bin
+is_add = fl.is_add
 
 
 def x_plus_padding(body, op):
@@ -596,7 +577,7 @@ def builder_rules(ctx, f, spec):
         muts = [c for c in cs if c.callee.startswith(HDR) and c.is_("fields_mut", "primary_mut") and ref_local(bg, c.args[0]) == hdr_l]
         ctx.floor("ORDER", "header mutations before measuring", len(muts), 2)
         for m in muts:
-            ctx.ob("ORDER", "builder:header-frozen:%s" % m.callee.rsplit("::", 1)[-1], m.b not in after or not mir.block_dominates(bg, size.b, m.b) and m.b not in after,
+            ctx.ob("ORDER", "builder:header-frozen:%s" % m.callee.rsplit("::", 1)[-1], m.b not in after,
                    "header is mutated only before its size is taken", m.where)
     # LEN
     sets = [c for c in cs if c.callee == PH + "::set_body_len"]
